@@ -49,7 +49,9 @@ Record case := mkCase {
   k_var : variant; k_pos : bool; k_rec : bool; k_since : N; k_since_ep : N; k_jl : bool; k_batch : bool;
   k_sched : list hitem;
   o_log : list frame;       (* observed: decoded frames written to the transport *)
-  o_glog : list pubT        (* observed: what the broker accepted (offset, epoch index, filtered?) *)
+  o_glog : list pubT;       (* observed: what the broker accepted (offset, epoch index, filtered?) *)
+  o_deliv : list frame      (* the PUB/SUB messages the driver handed to the node, in delivery order
+                               (as FPub / FJoin / FLeave); used by C10's push-order clause *)
 }.
 
 Definition pub_eqb (a b : pubT) : bool :=
@@ -81,11 +83,13 @@ Definition corr_with (fa fs f0 f1 f2 : bool) (k : case) : bool :=
   | None => false
   end.
 
-(* The implementation must behave, on every schedule, like the model of the code as it
-   stands (both patch flags off) or like the model of the patched code (proposed fixes of
-   the two C01 findings; flags are independent).  Which of the two applies is decided by
-   the ORACLE below, not here: unpatched behaviour with a gap fails the oracle. *)
-Definition corr (k : case) : bool :=
+(* The implementation must behave, on every schedule, like the model of the code AS FOUND
+   (all patch flags off: the proposed patches were recorded as known findings and not
+   applied).  [corr_any] accepts the code with any subset of the proposed patches; it is what
+   the patched scratch trees were validated with. *)
+Definition corr (k : case) : bool := corr_with false false false false false k.
+
+Definition corr_any (k : case) : bool :=
   existsb (fun fl => match fl with (((fa, fs), f0), (f1, f2)) => corr_with fa fs f0 f1 f2 k end)
     (list_prod (list_prod (list_prod [false; true] [false; true]) [false; true]) (list_prod [false; true] [false; true])).
 
